@@ -1220,6 +1220,11 @@ class Workspace(AbstractContextManager):
 
         :param entity: The entity to be registered.
         """
+        if not isinstance(entity, EntityType):
+            owner = self.find_entity(entity.uid)
+            if owner is not None and owner is not entity:
+                raise RuntimeError(f"Key '{entity.uid}' already used by {owner}.")
+
         if isinstance(entity, EntityType):
             weakref_utils.insert_once(self._types, entity.uid, entity)
         elif isinstance(entity, Group):
